@@ -1,6 +1,7 @@
 #!/bin/bash
-# usage: goal.sh theories/X/Y.v LINE  -- show the proof state just before LINE
-cd /verif/coq
+# usage: goal.sh theories/X/Y.v LINE [maxlines] -- show the proof state just before LINE (run from any worktree)
+here="$(cd "$(dirname "$0")/.." && pwd)"
+cd "$here/coq"
 f=$1; n=$2
 tmp=$(mktemp -d)
 base=$(basename $f .v)
